@@ -414,6 +414,8 @@ def cut_loop(I, node, env, spec):
     if is_for:
         x = I.lib.getitem(I, seq, extra["$k"], node)
         I.assign_target(node.target, x, env)
+        extra = dict(extra)
+        extra["$target"] = x  # the element of this iteration, whatever the loop variables are called
     if head is not None:
         _hook(I, head, [vc, _vars_dict(I, env, extra), True])
     modifies = spec.get("modifies")
@@ -511,9 +513,11 @@ def cut_comprehension(I, node, env, spec):
     if entering:
         cenv = Env(parent=env)
         cenv.func = env.func if not env.is_class else None
-        I.assign_target(g.target, I.lib.getitem(I, seq, extra["$k"], node), cenv)
+        x_ = I.lib.getitem(I, seq, extra["$k"], node)
+        I.assign_target(g.target, x_, cenv)
         both = {}
         both.update(extra)
+        both["$target"] = x_
         for kk, vv in cenv.vars.items():
             both[kk] = vv
         if head is not None:
